@@ -295,6 +295,12 @@ func (g *appGen) genPre(node string, loaded map[string]bool, first bool) (code [
 				continue
 			}
 			target := g.otherNode(node, g.rank(node)+1, "catchtarget")
+			if !first {
+				// a later HALT section also runs after one of the preceding INCMP lines
+				// matched, i.e. inside that line's target node: a named target could be
+				// that very node (a node moving to itself: ill-formed)
+				target = ""
+			}
 			if target == "" || g.chance(15, "catchtocatch") {
 				target = "_catch"
 				if node == "_catch" {
@@ -386,12 +392,21 @@ func (g *appGen) tailTarget(node string, incmpTargets map[string]bool, label str
 	return "."
 }
 
-func (g *appGen) genPost(node string, loaded map[string]bool, hasSink, browse bool) (code []app.Instr) {
+// genPost generates the INCMP lines after a HALT and what follows them. exclude holds
+// named targets of earlier sections of the same node: a later section also runs inside
+// those nodes (the rest of a node's code executes after a matching INCMP, before the
+// target's own code), so moving to them again would be a node moving to itself.
+func (g *appGen) genPost(node string, loaded map[string]bool, hasSink, browse bool, exclude map[string]bool) (code []app.Instr) {
 	t := g.t
 	n := rapid.IntRange(0, 5).Draw(t, "nincmp")
 	incmpTargets := map[string]bool{}
+	for k := range exclude {
+		incmpTargets[k] = true
+	}
 	defer func() {
-		_ = incmpTargets
+		for k := range incmpTargets {
+			exclude[k] = true
+		}
 	}()
 	if hasSink && browse {
 		code = append(code, app.Instr{Op: refdec.INCMP, Sym: ">", Sel: "11"}, app.Instr{Op: refdec.INCMP, Sym: "<", Sel: "22"})
@@ -402,6 +417,9 @@ func (g *appGen) genPost(node string, loaded map[string]bool, hasSink, browse bo
 			sel = "*"
 		}
 		target := g.genTarget(node, "target")
+		if exclude[target] {
+			target = "."
+		}
 		incmpTargets[target] = true
 		code = append(code, app.Instr{Op: refdec.INCMP, Sym: refdec.BS(target), Sel: refdec.BS(sel)})
 	}
@@ -486,8 +504,18 @@ func (g *appGen) genNode(name string) app.Node {
 	if !g.o.NoEndNodes && g.chance(endPct, "endafterhalt") {
 		return nd // graceful end node
 	}
-	nd.Code = append(nd.Code, g.genPost(name, loaded, hasSink, browse)...)
-	if g.o.MultiHalt && g.chance(12, "secondhalt") {
+	exclude := map[string]bool{}
+	nd.Code = append(nd.Code, g.genPost(name, loaded, hasSink, browse, exclude)...)
+	// code that follows a move to a named node runs inside that node (before the node's
+	// own code) and stays in the buffer: a further HALT section after such a move would
+	// make this node's lines execute as if they were the other node's
+	lastNamedMove := false
+	for _, in := range nd.Code {
+		if (in.Op == refdec.MOVE || in.Op == refdec.CATCH) && len(in.Sym) > 1 {
+			lastNamedMove = true
+		}
+	}
+	if g.o.MultiHalt && !lastNamedMove && g.chance(12, "secondhalt") {
 		pre2, _, hs2, br2 := g.genPre(name, loaded, false)
 		// the node has one template: the second section has to expose the same symbols
 		for _, m := range mapped {
@@ -498,7 +526,7 @@ func (g *appGen) genNode(name string) app.Node {
 		}
 		nd.Code = append(nd.Code, pre2...)
 		nd.Code = append(nd.Code, app.Instr{Op: refdec.HALT})
-		nd.Code = append(nd.Code, g.genPost(name, loaded, hs2, br2)...)
+		nd.Code = append(nd.Code, g.genPost(name, loaded, hs2, br2, exclude)...)
 	}
 	return nd
 }
